@@ -147,6 +147,12 @@ def _work(job: t.Tuple[t.Any, ...]) -> evid.Local:
                 rec(mk(v, "cn"), name)
             rec(L.FilterSubstrings("cn", v, [v, b"x", v], v), "sub")
             rec(L.FilterSubstrings("cn", None, [b"%d" % i for i in range(40)] + [v], None), "sub")
+        # values whose text form crosses 4 KiB / 8 KiB / 64 KiB with an escape at every alignment
+        for base in (4096, 8192, 65536):
+            for n in range(base - 12, base + 4):
+                v = b"a" * n + b"\xe9" + b"b*"
+                rec(L.FilterEquality("cn", v), "eq")
+                rec(L.FilterSubstrings("cn", v, [v], None), "sub")
         leaf = L.FilterEquality("cn", b")(")
         chain: t.Any = leaf
         for i in range(60):
